@@ -181,8 +181,13 @@ class RecordingBuilder:
         return None
 
 
-class ListScanner:
+from gherkin.token_scanner import TokenScanner as _gh_TokenScanner  # noqa: E402
+
+
+class ListScanner(_gh_TokenScanner):
+    """a TokenScanner (by type, as Parser.parse asks for) whose read() hands out prepared tokens"""
     def __init__(self, toks, eof_line=None):
+        super().__init__("")
         self.toks = deque(toks)
         self.eof_line = eof_line if eof_line is not None else len(toks) + 1
         self.reads = 0
